@@ -229,6 +229,15 @@ def run(ctx):
             t_ = B.blocks[bb]['t']
             if t_['k'] == 'switch' and t_.get('dty') == 'u8':
                 cmp_consts |= {v for v, _ in t_['cases'] if isinstance(v, int)}
+        # `tag == Some(68)` / `data.first() == Some(&112)`: the byte is compared inside an Option
+        for bb, t_ in B.calls():
+            if any(n_.endswith('PartialEq::eq') or n_.endswith('PartialEq::ne') for n_ in callee_names(t_)) and all('Option<u8>' in a_ or 'Option<&u8>' in a_ for a_ in (t_.get('aty') or ['']) [:2]):
+                for a_ in t_['args'][:2]:
+                    o_ = B.origin(a_)
+                    if o_[0] == 'agg' and o_[1].get('var') == 'Some' and o_[1].get('ops'):
+                        v_ = fold(B.origin(o_[1]['ops'][0]))
+                        if v_ is not None:
+                            cmp_consts.add(v_)
         need = {69: 'first fragment', 70: 'continuation', 112: 'pass-through', 68: 'distribution header'}
         for v, nm in need.items():
             if v in cmp_consts:
